@@ -78,7 +78,8 @@ Print Assumptions compiler_flags_named_identically.
    identifiers / namespaces: pointer and length of the same accessor; YRX_MATCH
    offset/length = range().start / range().len(); every yara_x::MetaValue variant
    is handled once, with its own declared tag, the union member named after the
-   tag and its payload unchanged; buffers take pointer and length from the same
+   tag and its payload unchanged, and a string containing NUL (which cannot be a
+   C string) is routed to the bytes representation by the one guarded arm; buffers take pointer and length from the same
    vector; the scan callbacks run over matching_rules(), the iterators over the
    rule's own metadata / patterns / tags / matches; the ten global setters pass
    a value of the type in their name to set_global / define_global unchanged *)
